@@ -143,6 +143,9 @@ func setPayload(c *mon.Ctx, m *ref.TSPacket, n int, r *gen.Rand) {
 		rel = "above"
 	}
 	c.Count("setpayload.n_" + rel + "_capacity")
+	if capa == 0 {
+		c.Count("setpayload.capacity_zero")
+	}
 	if err != nil || cnt != k {
 		c.Fail("setpayload:count/"+rel, fmt.Sprintf("SetPayload(%d bytes) returned %d, %v; capacity is %d so %d bytes must be stored (%s)", n, cnt, err, capa, k, desc(m)), w(fmt.Sprintf("capacity=%d", capa), nil))
 		return
@@ -317,11 +320,21 @@ func run(c *mon.Ctx) {
 	c.Floor("setpayload.n_above_capacity", 500)
 	c.Floor("setpayload.n_below_capacity", 500)
 	reps := c.N(12, 1500)
-	c.Exhaustive("every adaptation_field_length 0..183 (AFC 11 / 10) and AFC 01, each with boundary payload lengths", 185)
-	c.Stream("by-length", 185, func(i int, r *gen.Rand) {
+	c.Exhaustive("every adaptation_field_length 0..183 (AFC 11 / 10; 183 also with AFC 11) and AFC 01, each with boundary payload lengths", 186)
+	c.Floor("setpayload.capacity_zero", 10)
+	c.Floor("payload_copies.appended_to", 2000)
+	c.Stream("by-length", 186, func(i int, r *gen.Rand) {
 		for k := 0; k < reps; k++ {
 			var m ref.TSPacket
 			switch {
+			case i == 185:
+				// payload flag set and adaptation_field_length 183: a zero-byte payload; with a field whose
+				// content ends exactly at byte 188 the capacity is 0
+				m = ref.GenTSPacket(r, 3, 183)
+				if room := 183 - m.AF.Size(); k%2 == 0 && m.AF.TPD == nil && room >= 1 {
+					v := r.Bytes(room - 1)
+					m.AF.TPD = &v
+				}
 			case i == 184:
 				m = ref.GenTSPacket(r, 1, 0)
 			case i == 183:
@@ -399,6 +412,43 @@ func run(c *mon.Ctx) {
 					wit{Op: "SetPayload x2", Before: mon.Hex(raw[:]), After: mon.Hex(p[:]), N: n2, Detail: desc(&m)})
 			}
 		}
+	})
+	// the method form returns independent copies: appending to one result leaves the others alone
+	c.Stream("payload-copies", c.N(4000, 2000000), func(i int, r *gen.Rand) {
+		var ps []packet.Packet
+		var hl []int
+		for len(ps) < 3 {
+			m := ref.GenTSPacket(r, r.PickInt([]int{1, 3, 3}), -1)
+			ps = append(ps, packet.Packet(m.Bytes()))
+			hl = append(hl, m.HeaderLen())
+		}
+		var got [][]byte
+		order := []int{0, 1, 2, 0, 1}
+		for _, k := range order {
+			b, err := ps[k].Payload()
+			if err != nil {
+				return
+			}
+			got = append(got, b)
+		}
+		c.Eval(len(order))
+		victim := r.Intn(len(got))
+		got[victim] = append(got[victim], r.Bytes(1+r.Intn(400))...)
+		if r.Bool() {
+			w := got[(victim+1)%len(got)]
+			got[(victim+1)%len(got)] = append(w[:len(w)/2], r.Bytes(200)...)
+		}
+		c.Count("payload_copies.appended_to")
+		for j, k := range order {
+			if j == victim || j == (victim+1)%len(got) {
+				continue
+			}
+			if !bytes.Equal(got[j], ps[k][hl[k]:]) {
+				c.Fail("partition:payload-method-copies-share-memory", fmt.Sprintf("appending to the slice returned by one (*Packet).Payload() call changed the bytes returned by another call (result %d of %d, appended to result %d)", j, len(got), victim), wit{Op: "Payload x5 + append", Before: mon.Hex(ps[k][:]), Detail: "got " + mon.Hex(got[j])})
+				break
+			}
+		}
+		c.Class(fmt.Sprintf("payload-copies/victim=%d", victim))
 	})
 	c.Stream("creation", c.N(5000, 4000000), func(i int, r *gen.Rand) { creation(c, r) })
 }
